@@ -233,7 +233,7 @@ func factsC03(r *Repo) []Fact {
 
 	// ---- submit: inline condition, slicing, num += 1 next to every start ----
 	if fd, file := cp.Func("taskManager", "submit"); fd == nil || fd.Body == nil {
-		for _, n := range []string{"firstTaskInline", "inlineRemovesFirst", "submitCountsEach"} {
+		for _, n := range []string{"firstTaskInline", "inlineRemovesFirst", "submitCountsEach", "submitPreprocessesFirst"} {
 			out = append(out, unknownFact(n, "Bool", "false", "compose", "taskManager.submit not found"))
 		}
 	} else {
@@ -299,6 +299,63 @@ func factsC03(r *Repo) []Fact {
 			out = append(out, boolFact("inlineRemovesFirst", removes, where+": tasks = tasks[1:] inside the inline branch"))
 		}
 		out = append(out, boolFact("submitCountsEach", counts, where+": num += 1 immediately before every `go executor` / inline executor call"))
+		// the pre-processors of ALL tasks run in a loop of their own before the inline decision;
+		// nothing is started before or inside that loop, and from the inline decision on nothing
+		// but `<rv>.executor` (and len) is called, so that nothing can fail once a task has started
+		if ifIdx < 0 {
+			out = append(out, unknownFact("submitPreprocessesFirst", "Bool", "false", where, "inline condition not located"))
+		} else {
+			preLoops, startsEarly, dirtyAfter := 0, false, false
+			mentionsPre := func(n ast.Node) bool {
+				f := false
+				ast.Inspect(n, func(x ast.Node) bool {
+					if se, ok := x.(*ast.SelectorExpr); ok && se.Sel.Name == "preProcessor" {
+						f = true
+					}
+					return !f
+				})
+				return f
+			}
+			starts := func(n ast.Node) bool {
+				f := false
+				ast.Inspect(n, func(x ast.Node) bool {
+					switch v := x.(type) {
+					case *ast.GoStmt:
+						f = true
+					case *ast.CallExpr:
+						if exprString(v.Fun) == rv+".executor" {
+							f = true
+						}
+					}
+					return !f
+				})
+				return f
+			}
+			for _, s := range st[:ifIdx] {
+				if starts(s) {
+					startsEarly = true
+				}
+				if rs, ok := s.(*ast.RangeStmt); ok && exprString(rs.X) == slice && mentionsPre(rs.Body) && containsReturn(rs.Body) {
+					preLoops++
+				}
+			}
+			for _, s := range st[ifIdx:] {
+				if mentionsPre(s) {
+					dirtyAfter = true
+				}
+				ast.Inspect(s, func(x ast.Node) bool {
+					if c, ok := x.(*ast.CallExpr); ok {
+						fn := exprString(c.Fun)
+						if fn != rv+".executor" && fn != "len" && !strings.HasPrefix(fn, "verif") {
+							dirtyAfter = true
+						}
+					}
+					return true
+				})
+			}
+			out = append(out, boolFact("submitPreprocessesFirst", preLoops == 1 && !startsEarly && !dirtyAfter,
+				where+": one loop over all tasks runs the pre-processors (returning the first error) before the inline decision; nothing is started before it and nothing but executor is called after it"))
+		}
 	}
 
 	// ---- initTaskManager: needAll: !r.eager ; done: make(chan *task, N) ----
@@ -389,6 +446,64 @@ func factsC03(r *Repo) []Fact {
 			}
 		}
 		out = append(out, boolFact("waitAllLoops", ok, "compose/"+file+": taskManager.waitAll loops waitOne until it reports false, returning only there"))
+	}
+	// ---- runner.run: every branch of the main loop that ends in handleInterrupt… first collects with tm.waitAll() ----
+	if fd, file := cp.Func("runner", "run"); fd == nil || fd.Body == nil {
+		out = append(out, unknownFact("interruptPathWaitsAll", "Bool", "false", "compose", "runner.run not found"))
+	} else {
+		rv := c03Recv(fd)
+		where := "compose/" + file + ": runner.run"
+		tm := ""
+		var loop *ast.ForStmt
+		for _, s := range fd.Body.List {
+			if as, ok := s.(*ast.AssignStmt); ok && len(as.Lhs) == 1 && len(as.Rhs) == 1 {
+				if c, ok := as.Rhs[0].(*ast.CallExpr); ok && exprString(c.Fun) == rv+".initTaskManager" {
+					tm = exprString(as.Lhs[0])
+				}
+			}
+			if fs, ok := s.(*ast.ForStmt); ok && fs.Cond == nil && fs.Init != nil {
+				loop = fs
+			}
+		}
+		if tm == "" || loop == nil {
+			out = append(out, unknownFact("interruptPathWaitsAll", "Bool", "false", where, "task manager variable or main loop (`for step := 0; ; step++`) not located"))
+		} else {
+			n, good := 0, 0
+			for _, s := range c03Stmts(loop.Body) {
+				is, ok := s.(*ast.IfStmt)
+				if !ok {
+					continue
+				}
+				ends, usesWait := false, false
+				ast.Inspect(is.Body, func(x ast.Node) bool {
+					if c, ok := x.(*ast.CallExpr); ok {
+						switch exprString(c.Fun) {
+						case rv + ".handleInterrupt", rv + ".handleInterruptWithSubGraphAndRerunNodes":
+							ends = true
+						case tm + ".wait", tm + ".waitOne":
+							usesWait = true
+						}
+					}
+					return true
+				})
+				if !ends {
+					continue
+				}
+				n++
+				b := c03Stmts(is.Body)
+				if len(b) > 0 && !usesWait {
+					if as, ok := b[0].(*ast.AssignStmt); ok && len(as.Rhs) == 1 && exprString(as.Rhs[0]) == tm+".waitAll()" {
+						good++
+					}
+				}
+			}
+			if n == 0 {
+				out = append(out, unknownFact("interruptPathWaitsAll", "Bool", "false", where, "no branch of the main loop calls handleInterrupt…"))
+			} else {
+				out = append(out, boolFact("interruptPathWaitsAll", good == n,
+					where+": every branch of the main loop that ends in handleInterrupt… starts with `… := "+tm+".waitAll()` and never calls "+tm+".wait / waitOne"))
+			}
+		}
 	}
 	return out
 }
